@@ -9,6 +9,7 @@ Local Open Scope N_scope.
 
 Inductive rawev :=
 | RTun (l : list (int * list int))      (* (byte length, packed bytes) *)
+| RTunF (l : list (int * list int)) (q k : int)
 | RMtu (m : int)
 | RRef (p ridx ep : int)
 | RAns (p ridx ep : int)
@@ -45,6 +46,7 @@ Definition dec_entry (l : list int) : entry :=
 Definition dec_ev (r : rawev) : event :=
   match r with
   | RTun l => TunBatch (map (fun x => unpackf (fst x) (snd x)) l)
+  | RTunF l q k => TunBatchFault (map (fun x => unpackf (fst x) (snd x)) l) (ni q) (ni k)
   | RMtu m => MtuUpdate (Z.of_N (ni m))
   | RRef p r e => RefHs (ni p) (ni r) (ni e)
   | RAns p r e => AnswerHs (ni p) (ni r) (ni e)
@@ -187,7 +189,7 @@ Definition stats_case (st : list N) (c : case) : list N :=
       let t := map dec_entry tbl in
       let es := map dec_ev evs in
       let st0 := {| s_tbl := t; s_mtu := Z.of_N (nthi hdr 0); s_up := true; s_peers := map init_peer peers |} in
-      let st := fold_left (fun a e => match e with TunBatch l => fold_left (stat_pkt t) l a | _ => a end) es st in
+      let st := fold_left (fun a e => match e with TunBatch l | TunBatchFault l _ _ => fold_left (stat_pkt t) l a | _ => a end) es st in
       fold_left (fun a os => fold_left stat_out os a) (outs step st0 es) st
   | PadSweep mtu lens pads =>
       fold_left (fun a l => bump a (pad_branch (Z.of_N (ni l)) (Z.of_N (ni mtu)))) lens st
